@@ -505,6 +505,7 @@ class Interp:
             v = await self.queues[s[1]]
             self.emit(label, 'got', [v])
         elif h == 'qclose':
+            self.emit(label, 'qclose', [s[1]])
             await self.queues[s[1]].close()
         elif h == 'qiter':
             n = 0
